@@ -96,9 +96,18 @@ type runner struct {
 	wg        sync.WaitGroup
 }
 
-func newRunner(cfg caseCfg) *runner {
+func newRunner(cfg caseCfg, ops []string) *runner {
 	w := newWorld()
 	w.nrec = cfg.nrec
+	w.v2 = cfg.eng == "v2"
+	extra := 0 // additional (quiet) sources: op `sources:<n>` anywhere in the script
+	for _, op := range ops {
+		if n, ok := strings.CutPrefix(op, "sources:"); ok {
+			if v, err := strconv.Atoi(n); err == nil && v >= 1 && v <= 4 {
+				extra = v - 1
+			}
+		}
+	}
 	logger := newLogger(w)
 	ctx := context.Background()
 	db := faultDB{DB: &inmemory.DB{}, w: w}
@@ -111,6 +120,11 @@ func newRunner(cfg caseCfg) *runner {
 	must(conns.Create(ctx, "src", connector.TypeSource, "builtin:verif", plID, connector.Config{Name: "src", Settings: map[string]string{}}, connector.ProvisionTypeAPI))
 	must(conns.Create(ctx, "dst", connector.TypeDestination, "builtin:verif", plID, connector.Config{Name: "dst", Settings: map[string]string{}}, connector.ProvisionTypeAPI))
 	must(pls.AddConnector(ctx, plID, "src"))
+	for i := 0; i < extra; i++ {
+		id := fmt.Sprintf("src%d", i+2)
+		must(conns.Create(ctx, id, connector.TypeSource, "builtin:verif", plID, connector.Config{Name: id, Settings: map[string]string{}}, connector.ProvisionTypeAPI))
+		must(pls.AddConnector(ctx, plID, id))
+	}
 	must(pls.AddConnector(ctx, plID, "dst"))
 
 	rec := &lifecycle.ErrRecoveryCfg{
@@ -282,6 +296,10 @@ func (r *runner) exec(op string) {
 		w.mu.Lock()
 		w.failFirst = arg
 		w.mu.Unlock()
+	case "stopfail": // the next stop call of an additional source's plugin fails (one-shot)
+		w.mu.Lock()
+		w.stopFail++
+		w.mu.Unlock()
 	case "hold": // the destination withholds its acks from now on
 		w.mu.Lock()
 		w.hold, w.holdCh, w.holdErr = true, make(chan struct{}), false
@@ -407,7 +425,7 @@ func (r *runner) exec(op string) {
 
 // runScript executes the ops and returns the trace line.
 func runScript(cfg caseCfg, ops []string) string {
-	r := newRunner(cfg)
+	r := newRunner(cfg, ops)
 	for _, op := range ops {
 		r.exec(op)
 	}
